@@ -23,6 +23,12 @@ inductive Op where
   | inbound                       -- an inbound stanza handled by Client.recv: nothing is written, nothing held
   | req (answer : String)         -- inbound <r/> reaching Client.recv: the client writes the answer (the bytes of
                                   -- `<a h='inbound count'/>`; the count itself is C09's), through Send: never held
+  | freshSession                  -- a reconnection on which the server refused the resumption (<failed/>, another
+                                  -- previd) and stream management was enabled anew: the held stanzas and the numbering
+                                  -- of the old session are gone (Session.resume clears SMState, EnableStreamManagement
+                                  -- installs a new queue) - the server's h restarts at 0 as well
+  | resumed                       -- a reconnection on which the server confirmed the resumption: the session goes on,
+                                  -- held stanzas and numbering untouched, nothing is written by the negotiation
   deriving DecidableEq, Repr
 
 /-- State: `Session.SMState.UnAckQueue` (stream management active: `Config.StreamManagementEnable = true`). -/
@@ -45,6 +51,8 @@ def step (s : St) : Op → St × List String
     let q' := dropAcked h s.q
     ({ s with q := q' }, if q'.isEmpty then [] else q'.map (·.stz) ++ [rBytes])
   | .ackFail h => ({ s with q := dropAcked h s.q }, [])
+  | .freshSession => (⟨[], 0⟩, [])
+  | .resumed => (s, [])
 
 def run (s : St) : List Op → St × List (List String)
   | [] => (s, [])
